@@ -33,7 +33,7 @@ ANCHORS = [
     "acnportal.acndata.utils:parse_dates",
 ]
 REQUIRED = ["interleaved_scenarios", "scenarios_judged", "multi_page_scenarios", "empty_page_scenarios", "zero_document_scenarios", "timeseries_scenarios",
-            "time_filter_scenarios", "date_fields_checked", "timeseries_timestamps_checked", "timeseries_straddling_offset_change", "round_trips", "invalid_site_rejections",
+            "time_filter_scenarios", "date_fields_checked", "timeseries_timestamps_checked", "timeseries_straddling_offset_change", "round_trips", "tzinfo:zoneinfo", "zoneinfo_fold_1_with_microseconds", "invalid_site_rejections",
             "regime:dst-transition-instant"]
 BUDGET_S = {"quick": 200, "thorough": 2400}
 ZONES = ["America/Los_Angeles", "America/New_York", "Europe/London", "Asia/Kolkata", "Australia/Sydney", "UTC",
@@ -267,17 +267,35 @@ def _run_roundtrip(case, obs):
             inst = datetime(y, rng.choice([3, 4, 10, 11, 9]), rng.randint(1, 28), rng.randint(0, 23), tzinfo=timezone.utc)
             tr = _next_transition(inst, z)
             if tr is not None:
-                inst = tr + timedelta(seconds=rng.randint(-7200, 7200))
+                inst = tr + timedelta(seconds=rng.randint(-7200, 7200) if rng.random() < 0.5 else rng.randint(0, 3599))
                 obs.regime("regime:dst-transition-instant")
                 obs.nontrivial(f"{zn}:{inst.isoformat()}")
         else:
             inst = datetime(2015, 1, 1, tzinfo=timezone.utc) + timedelta(seconds=rng.randint(0, 10 * 365 * 86400))
         us = rng.choice([0, 0, rng.randint(1, 999999)])
-        dt = (inst + timedelta(microseconds=us)).astimezone(tz)
+        # the aware datetime comes with different tzinfo flavours: pytz (offset fixed at localisation), zoneinfo (wall time +
+        # fold: the second pass through a repeated hour is fold=1, which datetime arithmetic silently drops), fixed offset, UTC
+        fl = rng.random()
+        if fl < 0.5:
+            dt = (inst + timedelta(microseconds=us)).astimezone(tz)
+            obs.ev("tzinfo:pytz")
+        elif fl < 0.85:
+            dt = (inst + timedelta(microseconds=us)).astimezone(z)
+            obs.ev("tzinfo:zoneinfo")
+            if dt.fold:
+                obs.ev("zoneinfo_fold_1_datetimes")
+                if us:
+                    obs.ev("zoneinfo_fold_1_with_microseconds")
+        elif fl < 0.95:
+            dt = (inst + timedelta(microseconds=us)).astimezone(timezone(timedelta(minutes=rng.choice([-480, -420, 0, 60, 330, 345, 570]))))
+            obs.ev("tzinfo:fixed-offset")
+        else:
+            dt = inst + timedelta(microseconds=us)
+            obs.ev("tzinfo:utc")
         s = http_date(dt)
         back = parse_http_date(s, tz)
         obs.ev("round_trips")
-        want = dt.replace(microsecond=0)
+        want = (inst + timedelta(microseconds=us)).astimezone(tz).replace(microsecond=0)
         loc = inst.astimezone(z)
         if parsedate_to_datetime(s) != inst:
             obs.violate("http_date_wrong_instant", f"{dt.isoformat()} formatted as {s!r}", zone=zn)
